@@ -56,9 +56,9 @@ Proof.
   intros (Hfs & W1 & Hs1 & Hrel0) Hfresh Hpok Hlks Hfb Hlow Hub Hbc Hlut HEf E1 d.
   pose proof Hrel0 as [Hb Hfbd Hp Hpb HpE HpG Hwf Ht Hli HW].
   pose proof HW as [H1 H2 H3 H4 H5 H6 H7 Hff H8 H9 H10 Hall Hlock H11 H13 H14].
-  assert (H12 : forall f ar, In (f, ar) fl ->
+  assert (H12 : forall f ar, In (f, ar) fl -> ar <> KP ->
             exists c0 p d', SyltSem.lookup e f = Some c0 /\ sget (fmt_var f) E = Some p /\ w_F W1 c0 p d' /\ dkind d' = ar).
-  { intros f ar Hin. destruct (Hfs f ar Hin) as (c0 & p & d' & A & B & C & D & _). exists c0, p, d'.
+  { intros f ar Hin HK. destruct (Hfs f ar Hin HK) as (c0 & p & d' & A & B & C & D & _). exists c0, p, d'.
     destruct Hs1 as (_ & HF & _). auto. }
   destruct (fresh_id_inv _ _ _ _ _ _ Hfresh) as (Hnin & Hnpv & Hnsv & Hfvb).
   pose proof (fresh_id_fl _ _ _ _ _ _ Hfresh) as Hnfl.
@@ -70,24 +70,24 @@ Proof.
   assert (Hwf1 : wfenv E1 stL2).
   { pose proof (wfenv_local E stL fv VNil Hwf) as [HV Hin Ha]. constructor; [exact HV | exact Hin |].
     intros x p H. specialize (Ha x p H). cbn in *. exact Ha. }
-  assert (HRc : forall c0 p, w_R W1 c0 p -> (c0 < length (SyltSem.cells st))%nat /\ (p < s_ncell stL)%positive).
-  { intros c0 p Hr. destruct (H1 c0 p Hr) as (y & A & _ & B). split; [apply nth_error_Some; congruence | exact B]. }
+  assert (HRc : forall c0 p b, w_R W1 c0 p b -> (c0 < length (SyltSem.cells st))%nat /\ (p < s_ncell stL)%positive).
+  { intros c0 p b Hr. destruct (H1 c0 p b Hr) as (y & A & _ & B). split; [apply nth_error_Some; congruence | exact B]. }
   assert (HFc : forall c0 p d0, w_F W1 c0 p d0 -> (c0 < length (SyltSem.cells st))%nat /\ (p < s_ncell stL)%positive).
   { intros c0 p d0 Hf. destruct (H6 c0 p d0 Hf) as (A & _ & B & _). split; [apply nth_error_Some; congruence | exact B]. }
   (* the scope seen from the new environments *)
-  assert (Hsc2 : forall v, In v sc -> exists c0 p, SyltSem.lookup (def_env fv e st) v = Some c0 /\ sget (fmt_var v) E1 = Some p /\ w_R W1 c0 p).
+  assert (Hsc2 : forall v, In v sc -> exists c0 p, SyltSem.lookup (def_env fv e st) v = Some c0 /\ sget (fmt_var v) E1 = Some p /\ w_R W1 c0 p true).
   { intros v Hv. destruct (H11 v Hv) as (c0 & p & A & B & C). exists c0, p.
     assert (Hne : v <> fv) by (intros ->; contradiction).
     unfold def_env. cbn [SyltSem.lookup]. destruct (N.eqb_spec fv v); [congruence|].
     split; [exact A | split; [unfold E1; rewrite sget_sset_var by exact Hne; exact B | exact C]]. }
-  assert (Hfl2 : forall f ar, In (f, ar) fl' ->
+  assert (Hfl2 : forall f ar, In (f, ar) fl' -> ar <> KP ->
             exists c0 p d', SyltSem.lookup (def_env fv e st) f = Some c0 /\ sget (fmt_var f) E1 = Some p /\
                             w_F (world_add W1 d) c0 p d' /\ dkind d' = ar).
-  { intros f ar [Heq|Hin].
+  { intros f ar [Heq|Hin] HK.
     - inversion Heq; subst f ar. exists (length (SyltSem.cells st)), (s_ncell stL), d.
       unfold def_env. cbn [SyltSem.lookup]. rewrite N.eqb_refl.
       split; [reflexivity | split; [apply sget_sset_same | split; [right; cbn [d fd_cf fd_pf]; auto | reflexivity]]].
-    - destruct (H12 f ar Hin) as (c0 & p & d' & A & B & C & D). exists c0, p, d'.
+    - destruct (H12 f ar Hin HK) as (c0 & p & d' & A & B & C & D). exists c0, p, d'.
       assert (Hne : f <> fv).
       { intros ->. apply Hnfl. unfold fnames. change fv with (fst (fv, ar)). apply in_map. exact Hin. }
       unfold def_env. cbn [SyltSem.lookup]. destruct (N.eqb_spec fv f); [congruence|].
@@ -118,11 +118,11 @@ Proof.
     split; [exact A|]. split; [intros c0 p d0 [Hf|Hf]; [left; apply B; exact Hf | right; exact Hf]|].
     split; [intros d0 [Hd0|Hd0]; [left; apply C; exact Hd0 | right; exact Hd0]|]. split; assumption. }
   split.
-  { intros f ar [Heq|Hin].
+  { intros f ar [Heq|Hin] HK.
     - inversion Heq; subst f ar. exists (length (SyltSem.cells st)), (s_ncell stL), d.
       unfold def_env. cbn [SyltSem.lookup]. rewrite N.eqb_refl.
       split; [reflexivity | split; [apply sget_sset_same | split; [right; cbn [d fd_cf fd_pf]; auto | split; [reflexivity | right; reflexivity]]]].
-    - destruct (Hfs f ar Hin) as (c0 & p & d' & A & B & C & D & F). exists c0, p, d'.
+    - destruct (Hfs f ar Hin HK) as (c0 & p & d' & A & B & C & D & F). exists c0, p, d'.
       assert (Hne : f <> fv).
       { intros ->. apply Hnfl. unfold fnames. change fv with (fst (fv, ar)). apply in_map. exact Hin. }
       unfold def_env. cbn [SyltSem.lookup]. destruct (N.eqb_spec fv f); [congruence|].
@@ -140,12 +140,12 @@ Proof.
   - apply linv_lua_def. exact Hli.
   - (* the world *)
     constructor; cbn [world_add w_R w_F w_D w_P w_pc].
-    + intros c0 p Hr. destruct (H1 c0 p Hr) as (y & A & B & C). exists y.
+    + intros c0 p b Hr. destruct (H1 c0 p b Hr) as (y & A & B & C). exists y.
       split; [unfold def_state; cbn [SyltSem.cells]; apply nth_error_app_old; exact A|].
       split; [rewrite Hold by exact C; exact B | rewrite Hnc2; lia].
     + exact H2.
     + exact H3.
-    + intros c0 p Hr. destruct (H4 c0 p Hr) as [A B]. destruct (HRc _ _ Hr) as [Hc0 Hp0]. split.
+    + intros c0 p b Hr. destruct (H4 c0 p b Hr) as [A B]. destruct (HRc _ _ _ Hr) as [Hc0 Hp0]. split.
       * intros p' d0 [Hf|(-> & _ & _)]; [exact (A p' d0 Hf) | cbn [d fd_cf] in Hc0; lia].
       * intros c' d0 [Hf|(_ & -> & _)]; [exact (B c' d0 Hf) | cbn [d fd_pf] in Hp0; lia].
     + exact H5.
@@ -174,7 +174,7 @@ Proof.
         split; [intros x p Hx; specialize (D x p Hx); rewrite Hnc2; lia|].
         split; [exact F|]. split; [unfold def_state; cbn [SyltSem.clos]; rewrite app_length; lia|]. split; [exact G'|].
         split; [exact Hsc|].
-        split; [intros f ar Hin; destruct (Hfl f ar Hin) as (c0 & p & d' & X & Y & Z & T); exists c0, p, d'; auto|].
+        split; [intros f ar Hin HK; destruct (Hfl f ar Hin HK) as (c0 & p & d' & X & Y & Z & T); exists c0, p, d'; auto|].
         intros t p Hbt Hq. destruct (Htm t p Hbt Hq) as [Hn1 Hn2]. split; [exact Hn1|].
         intros c0 d1 [Hf|(_ & -> & _)]; [exact (Hn2 c0 d1 Hf)|]. specialize (D _ _ Hq). cbn [d fd_pf] in D. lia.
       * split; [exact Hstatic|]. cbn [d fd_ci fd_params fd_body fd_ef fd_fid fd_Ef fd_sc fd_fl].
@@ -239,7 +239,7 @@ Lemma rel_lookup_ext sc e e' st E stL :
   (forall v, SyltSem.lookup e' v = SyltSem.lookup e v) -> rel sc e st E stL -> rel sc e' st E stL.
 Proof.
   intros Hl (Hfs & W1 & Hs1 & [Hb Hfb Hp Hpb HpE HpG Hwf Ht Hli HW]).
-  split; [intros f ar Hin; destruct (Hfs f ar Hin) as (c & p & d & A & B); exists c, p, d; rewrite Hl; auto|].
+  split; [intros f ar Hin HK; destruct (Hfs f ar Hin HK) as (c & p & d & A & B); exists c, p, d; rewrite Hl; auto|].
   exists W1. split; [exact Hs1|]. constructor; auto.
   - rewrite Hl. exact Hp.
   - apply (winv_env pv sv bound u fl W1 sc e st E stL fl sc e' E HW).
@@ -296,15 +296,15 @@ Proof.
   pose proof HW as [H1 H2 H3 H4 H5 H6 H7 Hff H8 H9 H10 Hall Hlock H11 H13 H14].
   assert (Hd1 : w_D W1 d) by (destruct Hs1 as (_ & _ & HD & _); apply HD; exact Hd).
   set (c0 := length (SyltSem.cells st)). set (p0 := s_ncell stL).
-  assert (HRc : forall c p, w_R W1 c p -> (c < c0)%nat /\ (p < p0)%positive).
-  { intros c p Hr. destruct (H1 c p Hr) as (y & A & _ & B). split; [apply nth_error_Some; congruence | exact B]. }
+  assert (HRc : forall c p b, w_R W1 c p b -> (c < c0)%nat /\ (p < p0)%positive).
+  { intros c p b Hr. destruct (H1 c p b Hr) as (y & A & _ & B). split; [apply nth_error_Some; congruence | exact B]. }
   assert (HFc : forall c p d', w_F W1 c p d' -> (c < c0)%nat /\ (p < p0)%positive).
   { intros c p d' Hf. destruct (H6 c p d' Hf) as (A & _ & B & _). split; [apply nth_error_Some; congruence | exact B]. }
   split.
-  { intros f K [Heq|Hin].
+  { intros f K [Heq|Hin] HK.
     - inversion Heq; subst f K. exists c0, p0, d. cbn [SyltSem.lookup]. rewrite N.eqb_refl.
       split; [reflexivity | split; [apply sget_sset_same | split; [right; auto | split; [reflexivity | exact Hd]]]].
-    - destruct (Hfs f K Hin) as (c & p & d' & A & B & C & D & F). exists c, p, d'.
+    - destruct (Hfs f K Hin HK) as (c & p & d' & A & B & C & D & F). exists c, p, d'.
       assert (Hne : f <> var).
       { intros ->. apply Hnfl. unfold fnames. apply in_map_iff. eexists. split; [|exact Hin]. reflexivity. }
       cbn [SyltSem.lookup]. destruct (N.eqb_spec var f); [congruence|].
@@ -323,11 +323,11 @@ Proof.
   - exact Ht.
   - apply linv_alloc_cell. exact Hli.
   - constructor; cbn [world_addF w_R w_F w_D w_P w_pc].
-    + intros c p Hr. destruct (H1 c p Hr) as (y & A & B & C). exists y. split; [apply nth_error_app_old; exact A|].
+    + intros c p b Hr. destruct (H1 c p b Hr) as (y & A & B & C). exists y. split; [apply nth_error_app_old; exact A|].
       split; [rewrite get_cell_alloc_old; assumption | cbn; lia].
     + exact H2.
     + exact H3.
-    + intros c p Hr. destruct (H4 c p Hr) as [A B]. destruct (HRc _ _ Hr). split.
+    + intros c p b Hr. destruct (H4 c p b Hr) as [A B]. destruct (HRc _ _ _ Hr). split.
       * intros p' d' [Hf|(-> & _ & _)]; [exact (A p' d' Hf) | unfold c0 in *; lia].
       * intros c' d' [Hf|(_ & -> & _)]; [exact (B c' d' Hf) | unfold p0 in *; lia].
     + exact H5.
@@ -346,7 +346,7 @@ Proof.
     + intros d0 Hd0. destruct (H10 d0 Hd0) as (A & B & C & D & F & G & G' & Hsc & Hfl & Htm).
       split; [exact A|]. split; [exact B|]. split; [exact C|]. split; [intros y p Hy; specialize (D y p Hy); cbn; lia|].
       split; [exact F|]. split; [exact G|]. split; [exact G'|]. split; [exact Hsc|].
-      split; [intros f K Hin; destruct (Hfl f K Hin) as (c & p & d' & X & Y & Z & T); exists c, p, d'; auto|].
+      split; [intros f K Hin HK; destruct (Hfl f K Hin HK) as (c & p & d' & X & Y & Z & T); exists c, p, d'; auto|].
       intros t p Hbt Hq. destruct (Htm t p Hbt Hq) as [Hn1 Hn2]. split; [exact Hn1|].
       intros c d1 [Hf|(_ & -> & _)]; [exact (Hn2 c d1 Hf)|]. specialize (D _ _ Hq). unfold p0 in *. lia.
     + exact Hall.
@@ -358,6 +358,214 @@ Proof.
     + intros w Hin [Heq|Hf]; [cbn [fst] in Heq; subst w; contradiction | exact (H13 w Hin Hf)].
     + intros t p Hbt Hq. rewrite sget_sset_var in Hq by lia. destruct (H14 t p Hbt Hq) as [Hn1 Hn2]. split; [exact Hn1|].
       intros c d1 [Hf|(_ & -> & _)]; [exact (Hn2 c d1 Hf)|]. pose proof (wf_alloc _ _ Hwf _ _ Hq). unfold p0 in *. lia.
+Qed.
+
+(* ---- a function-valued constant  x :: <function value>.  While the value is computed the two cells of x exist (they
+   hold nil) and the name cannot be used: the entry (x, KP) among the callable functions, the pair of cells in the
+   world with the flag false.  The assignment makes them the cells of a function name. ---- *)
+Lemma rel_reserve fl W sc e st E stL x :
+  rel pv sv bound u fl W sc e st E stL -> fresh_id pv sv bound fl sc x = true ->
+  rel pv sv bound u ((x, KP) :: fl) (world_addR W (length (SyltSem.cells st)) (s_ncell stL) false) sc
+      ((x, length (SyltSem.cells st)) :: e) (s_alloc st (SyltSem.SV Values.VLuaNil))
+      (sset (fmt_var x) (s_ncell stL) E) (snd (alloc_cell stL VNil)).
+Proof.
+  intros (Hfs & W1 & Hs1 & [Hb Hfb Hp Hpb HpE HpG Hwf Ht Hli HW]) Hfresh.
+  destruct (fresh_id_inv _ _ _ _ _ _ Hfresh) as (Hnin & Hnpv & Hnsv & Hvb). pose proof (fresh_id_fl _ _ _ _ _ _ Hfresh) as Hnfl.
+  split.
+  { intros f K [Heq|Hin] HK; [inversion Heq; subst; contradiction|].
+    destruct (Hfs f K Hin HK) as (c & p & d & A & B & C). exists c, p, d.
+    assert (Hne : f <> x).
+    { intros ->. apply Hnfl. unfold fnames. apply in_map_iff. eexists. split; [|exact Hin]. reflexivity. }
+    cbn [SyltSem.lookup]. destruct (N.eqb_spec x f); [congruence|].
+    split; [exact A | split; [rewrite sget_sset_var by exact Hne; exact B | exact C]]. }
+  exists (world_addR W1 (length (SyltSem.cells st)) (s_ncell stL) false). split.
+  { destruct Hs1 as (A & B & C & D & F). unfold wsub, world_addR. cbn.
+    split; [intros c p b [Hr|Hr]; [left; apply A; exact Hr | right; exact Hr]|]. split; [exact B|]. split; [exact C | split; assumption]. }
+  pose proof (winv_addR pv sv bound u fl W1 sc e st E stL (SyltSem.SV Values.VLuaNil) VNil false HW Hwf I) as HW2.
+  constructor.
+  - exact Hb.
+  - intros g [<-|Hg]; [split; assumption | apply Hfb; exact Hg].
+  - cbn [SyltSem.lookup world_addR w_pc]. destruct (N.eqb_spec x pv); [congruence | exact Hp].
+  - exact Hpb.
+  - rewrite sget_sset_var by (intros Heq; apply Hnpv; symmetry; exact Heq). exact HpE.
+  - eapply glob_frame; [|exact HpG]. reflexivity.
+  - apply wfenv_local. exact Hwf.
+  - exact Ht.
+  - apply linv_alloc_cell. exact Hli.
+  - apply (winv_env pv sv bound u fl _ sc e _ E _ ((x, KP) :: fl) sc _ _ HW2).
+    + intros w Hin. destruct (wi_sc _ _ _ _ _ _ _ _ _ _ _ HW w Hin) as (c & p & A & B & C). exists c, p.
+      assert (Hne : w <> x) by (intros ->; contradiction).
+      cbn [SyltSem.lookup]. destruct (N.eqb_spec x w); [congruence|].
+      split; [exact A | split; [rewrite sget_sset_var by exact Hne; exact B | left; exact C]].
+    + intros w Hin [Heq|Hf]; [cbn [fst] in Heq; subst w; contradiction | exact (wi_scfl _ _ _ _ _ _ _ _ _ _ _ HW w Hin Hf)].
+    + intros t p Hbt Hq. rewrite sget_sset_var in Hq by lia. apply (wi_temps _ _ _ _ _ _ _ _ _ _ _ HW2 t p Hbt Hq).
+Qed.
+
+Lemma rel_cdef fl W sc e st0 E0 stL0 x W1 st E stL d :
+  rel pv sv bound u fl W sc e st0 E0 stL0 ->
+  wsub (world_addR W (length (SyltSem.cells st0)) (s_ncell stL0) false) W1 -> w_D W1 d ->
+  rel pv sv bound u ((x, KP) :: fl) W1 sc ((x, length (SyltSem.cells st0)) :: e) st E stL ->
+  sget (fmt_var x) E = Some (s_ncell stL0) ->
+  fresh_id pv sv bound fl sc x = true ->
+  rel pv sv bound u ((x, dkind d) :: fl) (world_addF (world_addD W d) (length (SyltSem.cells st0)) (s_ncell stL0) d) sc
+      ((x, length (SyltSem.cells st0)) :: e) (s_write st (length (SyltSem.cells st0)) (SyltSem.SClos (fd_ci d)))
+      E (set_cell stL (s_ncell stL0) (VFun (fd_fid d))).
+Proof.
+  intros (Hfs0 & Wh0 & Hs0 & Hrel0) Hs Hd (Hfs1 & Wh & Hs1 & Hrel1) HxE Hfresh.
+  set (c := length (SyltSem.cells st0)) in *. set (p := s_ncell stL0) in *.
+  destruct (fresh_id_inv _ _ _ _ _ _ Hfresh) as (Hnin & Hnpv & Hnsv & Hvb). pose proof (fresh_id_fl _ _ _ _ _ _ Hfresh) as Hnfl.
+  pose proof Hrel1 as [Hb Hfb Hp Hpb HpE HpG Hwf Ht Hli HW].
+  pose proof HW as [H1 H2 H3 H4 H5 H6 H7 Hff H8 H9 H10 Hall Hlock H11 H13 H14].
+  pose proof (r0_world _ _ _ _ _ _ _ _ _ _ _ Hrel0) as HW0.
+  assert (Hs01 : wsub W Wh) by (eapply wsub_trans; [eapply wsub_trans; [apply wsub_addR | exact Hs] | exact Hs1]).
+  assert (HRcp : w_R Wh c p false).
+  { destruct Hs1 as (A & _). apply A. destruct Hs as (A' & _). apply A'. unfold world_addR. cbn. right. auto. }
+  assert (Hdh : w_D Wh d) by (destruct Hs1 as (_ & _ & HD & _); apply HD; exact Hd).
+  destruct (H1 c p false HRcp) as (x0 & Hx0 & _ & Hplt).
+  assert (Hcl : (c < length (SyltSem.cells st))%nat) by (apply nth_error_Some; congruence).
+  assert (HRW : forall c0 p0 b, w_R W c0 p0 b -> c0 <> c).
+  { intros c0 p0 b Hr. destruct Hs0 as (A & _). destruct (wi_R _ _ _ _ _ _ _ _ _ _ _ HW0 c0 p0 b (A _ _ _ Hr)) as (y & Hy & _).
+    assert ((c0 < length (SyltSem.cells st0))%nat) by (apply nth_error_Some; congruence). unfold c. lia. }
+  assert (Hpcne : w_pc Wh <> c).
+  { assert (Hpc : w_pc Wh = w_pc Wh0).
+    { destruct Hs01 as (_ & _ & _ & _ & F1). destruct Hs0 as (_ & _ & _ & _ & F0). congruence. }
+    rewrite Hpc. pose proof (wi_pc _ _ _ _ _ _ _ _ _ _ _ HW0) as H.
+    assert ((w_pc Wh0 < length (SyltSem.cells st0))%nat) by (apply nth_error_Some; congruence). unfold c. lia. }
+  assert (HnF1 : forall p' d0, ~ w_F Wh c p' d0) by (apply (H4 c p false HRcp)).
+  assert (HnF2 : forall c' d0, ~ w_F Wh c' p d0) by (apply (H4 c p false HRcp)).
+  assert (HRne : forall c0 p0, w_R Wh c0 p0 true -> c0 <> c /\ p0 <> p).
+  { intros c0 p0 Hr. split.
+    - intros ->. destruct (H2 c p0 p true false Hr HRcp) as [_ Hbb]. discriminate Hbb.
+    - intros ->. assert (c0 = c) by (eapply H3; eassumption). subst c0. destruct (H2 c p p true false Hr HRcp) as [_ Hbb]. discriminate Hbb. }
+  set (W2h := mkWorld (fun c0 p0 b => w_R Wh c0 p0 b /\ c0 <> c) (fun c0 p0 d0 => w_F Wh c0 p0 d0 \/ (c0 = c /\ p0 = p /\ d0 = d))
+                      (w_D Wh) (w_P Wh) (w_pc Wh)).
+  split.
+  { intros f K [Heq|Hin] HK.
+    - inversion Heq; subst f K. exists c, p, d. cbn [SyltSem.lookup]. rewrite N.eqb_refl.
+      split; [reflexivity | split; [exact HxE | split; [right; auto | split; [reflexivity | right; reflexivity]]]].
+    - destruct (Hfs0 f K Hin HK) as (c0 & p0 & d0 & A0 & _ & C0 & D0 & F0).
+      destruct (Hfs1 f K (or_intror Hin) HK) as (c1 & p1 & d1 & A1 & B1 & C1 & _).
+      assert (Hne : f <> x).
+      { intros ->. apply Hnfl. unfold fnames. apply in_map_iff. eexists. split; [|exact Hin]. reflexivity. }
+      cbn [SyltSem.lookup] in A1 |- *. destruct (N.eqb_spec x f); [congruence|].
+      assert (c1 = c0) by congruence. subst c1.
+      assert (HF0 : w_F Wh c0 p0 d0) by (destruct Hs01 as (_ & HF & _); apply HF; exact C0).
+      assert (HF1 : w_F Wh c0 p1 d1) by (destruct Hs1 as (_ & HF & _); apply HF; exact C1).
+      destruct (Hff c0 p1 d1 p0 d0 HF1 HF0) as [-> ->].
+      exists c0, p0, d0. split; [exact A0 | split; [exact B1 | split; [left; exact C0 | split; [exact D0 | left; exact F0]]]]. }
+  exists W2h. split.
+  { destruct Hs01 as (A & B & C & D & F). unfold wsub, W2h, world_addF, world_addD. cbn.
+    split; [intros c0 p0 b Hr; split; [apply A; exact Hr | eapply HRW; exact Hr]|].
+    split; [intros c0 p0 d0 [Hf|Hf]; [left; apply B; exact Hf | right; exact Hf]|].
+    split; [intros d0 [Hd0| ->]; [apply C; exact Hd0 | exact Hdh]|]. split; assumption. }
+  constructor.
+  - exact Hb.
+  - exact Hfb.
+  - exact Hp.
+  - exact Hpb.
+  - exact HpE.
+  - eapply glob_frame; [|exact HpG]. reflexivity.
+  - eapply wfenv_ext; [exact Hwf | cbn; lia].
+  - exact Ht.
+  - apply linv_set_cell. exact Hli.
+  - constructor; unfold W2h; cbn [w_R w_F w_D w_P w_pc s_write SyltSem.cells SyltSem.clos].
+    + intros c0 p0 b [Hr Hne]. destruct (H1 c0 p0 b Hr) as (y & A & B & C). exists y.
+      split; [rewrite nth_set_nth_other by congruence; exact A|]. split; [|exact C].
+      rewrite get_cell_set_other; [exact B|]. intros ->. apply Hne. eapply H3; eassumption.
+    + intros c0 p0 p0' b b' [Hr _] [Hr' _]. eapply H2; eassumption.
+    + intros c0 c0' p0 b b' [Hr _] [Hr' _]. eapply H3; eassumption.
+    + intros c0 p0 b [Hr Hne]. destruct (H4 c0 p0 b Hr) as [A B]. split.
+      * intros p' d0 [Hf|(Hc & _ & _)]; [exact (A p' d0 Hf) | exact (Hne Hc)].
+      * intros c' d0 [Hf|(_ & Hp' & _)]; [exact (B c' d0 Hf)|]. subst p0. apply Hne. eapply H3; eassumption.
+    + intros c0 p0 b lv [Hr _]. exact (H5 c0 p0 b lv Hr).
+    + intros c0 p0 d0 [Hf|(-> & -> & ->)].
+      * destruct (H6 c0 p0 d0 Hf) as (A & B & C & D).
+        assert (c0 <> c) by (intros ->; exact (HnF1 _ _ Hf)). assert (p0 <> p) by (intros ->; exact (HnF2 _ _ Hf)).
+        split; [rewrite nth_set_nth_other by congruence; exact A|]. split; [rewrite get_cell_set_other by assumption; exact B|].
+        split; [exact C | exact D].
+      * split; [apply nth_set_nth_same; exact Hcl|]. split; [apply get_cell_set_same|]. split; [exact Hplt | exact Hdh].
+    + intros c0 p0 d0 lv [Hf|(_ & -> & _)]; [exact (H7 c0 p0 d0 lv Hf) | exact (H5 c p false lv HRcp)].
+    + intros c0 p0 d0 p0' d0' [Hf|(-> & -> & ->)] [Hf'|(Hc' & Hp' & Hd')].
+      * exact (Hff c0 p0 d0 p0' d0' Hf Hf').
+      * subst c0. destruct (HnF1 _ _ Hf).
+      * destruct (HnF1 _ _ Hf').
+      * subst. split; reflexivity.
+    + intros p0 lv Hq. destruct (H8 p0 lv Hq) as [A B]. split; [|exact B].
+      rewrite get_cell_set_other; [exact A|]. intros ->. exact (H5 c p false lv HRcp Hq).
+    + rewrite nth_set_nth_other by (intros Heq; apply Hpcne; symmetry; exact Heq). exact H9.
+    + intros d0 Hd0. destruct (H10 d0 Hd0) as (A & B & C & D & F & G & G' & Hsc & Hfl & Htm).
+      split; [exact A|]. split; [exact B|]. split; [exact C|]. split; [exact D|]. split; [exact F|]. split; [exact G|]. split; [exact G'|].
+      split; [intros g Hg; destruct (Hsc g Hg) as (c1 & p1 & X & Y & Z); exists c1, p1; split; [exact X | split; [exact Y | split; [exact Z | apply (HRne _ _ Z)]]]|].
+      split; [intros f K Hin HK; destruct (Hfl f K Hin HK) as (c1 & p1 & d1 & X & Y & Z & T); exists c1, p1, d1; auto|].
+      intros t p1 Hbt Hq. destruct (Htm t p1 Hbt Hq) as [Hn1 Hn2]. split; [intros c1 b [Hr _]; exact (Hn1 c1 b Hr)|].
+      intros c1 d1 [Hf|(_ & -> & _)]; [exact (Hn2 c1 d1 Hf) | exact (Hn1 c false HRcp)].
+    + exact Hall.
+    + exact Hlock.
+    + intros v Hv. destruct (H11 v Hv) as (c1 & p1 & X & Y & Z). exists c1, p1. split; [exact X | split; [exact Y | split; [exact Z | apply (HRne _ _ Z)]]].
+    + exact H13.
+    + intros t p1 Hbt Hq. destruct (H14 t p1 Hbt Hq) as [Hn1 Hn2]. split; [intros c1 b [Hr _]; exact (Hn1 c1 b Hr)|].
+      intros c1 d1 [Hf|(_ & -> & _)]; [exact (Hn2 c1 d1 Hf) | exact (Hn1 c false HRcp)].
+Qed.
+
+(* the Lua side of the two steps *)
+Lemma step_reserve fl W sc e st E stL l c x :
+  rel pv sv bound u fl W sc e st E stL -> lut_ok bound l c c -> fresh_id pv sv bound fl sc x = true -> 1 <= count_of u x ->
+  ExecS E (fst (agen_one u l (IDefine x))) stL (ROk (sset (fmt_var x) (s_ncell stL) E, SigNormal) (snd (alloc_cell stL VNil))) /\
+  wframe bound c c E stL (sset (fmt_var x) (s_ncell stL) E) (snd (alloc_cell stL VNil)) /\
+  keep fl sc E (sset (fmt_var x) (s_ncell stL) E).
+Proof.
+  intros Hrel Hl Hfresh Hu. destruct (fresh_id_inv _ _ _ _ _ _ Hfresh) as (Hnin & Hnpv & Hnsv & Hvb).
+  pose proof (fresh_id_fl _ _ _ _ _ _ Hfresh) as Hnfl.
+  pose proof (r_wf _ _ _ _ _ _ _ _ _ _ _ Hrel) as Hwf.
+  cbn [agen_one]. assert (Hused : (0 <? count_of u x) = true) by (apply N.ltb_lt; lia). rewrite Hused. cbn [fst].
+  rewrite (aname_none l x) by (apply Hl; right; exact Hvb).
+  assert (Hex : Exec E (SLocal [fmt_var x] [ENil]) stL
+                  (ROk (sset (fmt_var x) (s_ncell stL) E, SigNormal) (snd (alloc_cell stL VNil)))).
+  { pose proof (Exec_local E [fmt_var x] [ENil] stL [VNil] stL
+                  (EvalList_one _ _ _ _ (EvalMulti_single E ENil stL VNil stL eq_refl (Eval_nil E stL)))) as H.
+    rewrite bind_locals_one in H. exact H. }
+  split; [apply ExecS_one; exact Hex|]. split.
+  - constructor.
+    + intros t p Hbt H. rewrite sget_sset_var by lia. exact H.
+    + intros y p H. destruct (string_dec y (fmt_var x)) as [->|Hne].
+      * right. right. exists x. split; [reflexivity | exact Hvb].
+      * left. rewrite sget_sset_other in H by exact Hne. exact H.
+    + intros t p _ _ H. apply get_cell_alloc_old. eapply wf_alloc; eassumption.
+    + cbn; lia.
+  - intros w [Hw|Hw]; apply sget_sset_var; intros ->; contradiction.
+Qed.
+
+Lemma step_cassign fl W1 sc e st E stL l c c' x rv p F fid :
+  rel pv sv bound u fl W1 sc e st E stL -> lut_ok bound l c c' -> x < bound -> 1 <= count_of u x ->
+  sget (fmt_var x) E = Some p ->
+  ldenotes F E stL (aexpand l rv) (VFun fid) ->
+  exists st3, cells_ext stL st3 /\
+    ExecS E (fst (agen_one u l (IAssign x rv))) stL (ROk (E, SigNormal) (set_cell st3 p (VFun fid))) /\
+    wframe bound c c' E stL E (set_cell st3 p (VFun fid)).
+Proof.
+  intros Hrel Hl Hvb Hu Hp Hd.
+  pose proof (r_wf _ _ _ _ _ _ _ _ _ _ _ Hrel) as Hwf. pose proof (r_linv _ _ _ _ _ _ _ _ _ _ _ Hrel) as Hli.
+  cbn [agen_one]. assert (Hused : (0 <? count_of u x) = true) by (apply N.ltb_lt; lia). rewrite Hused. cbn [fst].
+  rewrite (aexpand_user bound l c c' x Hl Hvb).
+  destruct (Hd E stL (fut_refl _ _ _) Hwf Hli) as (st3 & _ & Hm & Hx3).
+  pose proof (Exec_assign_local E (fmt_var x) p (aexpand l rv) stL [VFun fid] st3 Hp (EvalList_one _ _ _ _ Hm)) as Hex.
+  cbn [first] in Hex.
+  exists st3. split; [exact Hx3|]. split; [apply ExecS_one; exact Hex|].
+  constructor; auto.
+  - intros t q Hbt Hr Hq. rewrite get_cell_set_other.
+    + apply Hx3. eapply wf_alloc; eassumption.
+    + intros ->. assert (fmt_var t = fmt_var x) by (eapply wf_inj; eassumption). apply fmt_var_inj in H. lia.
+  - cbn [set_cell s_ncell]. apply Hx3.
+Qed.
+
+Lemma frag_fexpr_KF fl k sc x K : frag_fexpr pv sv bound fl k sc x = Some K -> K <> KP.
+Proof.
+  destruct k as [|k]; [discriminate|]. destruct x; try discriminate; cbn [frag_fexpr].
+  - destruct (fun_kind fl var) as [[|a r]|]; try discriminate. intros H; inversion H; discriminate.
+  - destruct x; try discriminate. destruct (var =? pv); [discriminate|].
+    destruct (fun_kind fl var) as [[|ks [|a r]]|]; try discriminate.
+    match goal with |- (if ?b then _ else _) = _ -> _ => destruct b; [|discriminate] end. intros H; inversion H; discriminate.
+  - match goal with |- (if ?b then _ else _) = _ -> _ => destruct b; [|discriminate] end. intros H; inversion H; discriminate.
 Qed.
 
 (* the names a list of parameters must avoid: fewer names, still fresh *)
@@ -468,9 +676,10 @@ Notation ctx_ok := (ctx_ok bound).
 (* statement lists: a statement (P_exec) or a local function (it joins the callable functions) and the rest *)
 Lemma P_blk_succ n :
   (forall fl' W', P_exec pv sv bound u fl' W' n) -> (forall fl' W', P_blk pv sv bound u fl' W' n) ->
+  (forall fl' W', P_farg pv sv bound u fl' W' (pred n)) ->
   P_blk pv sv bound u fl W (S n).
 Proof.
-  intros HE HB g k ss ctx c cs c' e st r st' sc sc' flr l E stL F Hev Hm Hfrag Hu Hctx Hrel Hint.
+  intros HE HB HX g k ss ctx c cs c' e st r st' sc sc' flr l E stL F Hev Hm Hfrag Hu Hctx Hrel Hint.
   destruct ss as [|s ss].
   - destruct (mapM_nil_ok _ _ _ _ Hm) as [-> ->]. destruct k as [|k]; [discriminate|]. cbn in Hfrag. inversion Hfrag; subst sc' flr.
     cbn in Hev. inversion Hev; subst r st'.
@@ -556,7 +765,108 @@ Proof.
           [exact Hxone | exact Hf1 | exact Hk1 | exact Hrel | apply wsub_world_add | exact Hfn1 | exact Hse1 | apply incl_refl | exact Hpost | lia | lia | lia | lia].
     + (* a statement *)
       rewrite (frag_stmts_plain _ _ _ _ _ _ _ _ Hfd) in Hfrag.
-      destruct (frag_stmt pv sv bound fl k sc s) as [sc1|] eqn:Hs; [|discriminate Hfrag].
+      destruct (frag_stmt pv sv bound fl k sc s) as [sc1|] eqn:Hs.
+      2: { (* x :: <function value> *)
+        destruct (cdef_next_inv _ _ _ _ _ _ _ _ _ Hfrag) as (nm & x & kd & t & v & sp & K & -> & Hfe & Hfr & Hrest).
+        assert (Hnf : is_function v = false) by (destruct v; try reflexivity; discriminate Hfd).
+        pose proof (frag_fexpr_KF pv sv bound _ _ _ _ _ Hfe) as HK.
+        destruct g as [|[|g2]]; [cbn in Hy; discriminate Hy | cbn in Hy; discriminate Hy |]. cbn [statement] in Hy.
+        rewrite (definition_nonfun g2 x v ctx Hnf) in Hy. mon Hy. destruct a as [code_v rv]. cbn [fst snd] in *.
+        apply ucovers_cons in Huy as [Hu1 Huy]. apply ucovers_app in Huy as [Huv Hua].
+        assert (Hcx : 1 <= count_of u x) by (apply Hu1; left; reflexivity).
+        assert (Hcrv : 1 <= count_of u rv) by (eapply Hua; [left; reflexivity | right; left; reflexivity]).
+        destruct (fresh_id_inv _ _ _ _ _ _ Hfr) as (Hnin & Hnpv & Hnsv & Hvb).
+        pose proof (fresh_id_fl _ _ _ _ _ _ Hfr) as Hnfl.
+        set (fl0 := (x, KP) :: fl) in *. set (fl' := (x, K) :: fl) in *.
+        destruct (L_fexpr_all pv sv bound u fl0 g2 k v K ctx c code_v rv c1 sc l Hm Hfe) as (_ & _ & (_ & Hccv & _) & _).
+        destruct (L_stmts_all pv sv bound u fl' (S (S g2)) k ss ctx c1 ys c' sc (sc', flr) l Hys Hrest) as (_ & _ & (_ & Hcvc' & _)).
+        destruct n as [|n2]; [cbn in Hev; inversion Hev; subst; destruct Hint|]. cbn [pred] in HX.
+        (* local V<x> = nil *)
+        assert (Hlcc : lut_ok bound l c c) by (eapply lut_ok_sub; [exact Hlut | lia | lia]).
+        destruct (step_reserve pv sv bound u fl W sc e st E stL l c x Hrel Hlcc Hfr Hcx) as (Hxd & Hfd0 & Hkd).
+        pose proof (rel_reserve pv sv bound u fl W sc e st E stL x Hrel Hfr) as Hrel1.
+        set (c0 := length (SyltSem.cells st)) in *. set (p0 := s_ncell stL) in *.
+        set (e' := (x, c0) :: e) in *. set (E1 := sset (fmt_var x) p0 E) in *. set (stL1 := snd (alloc_cell stL VNil)) in *.
+        set (W0 := world_addR W c0 p0 false) in *.
+        assert (Hsd : cshape u l [IDefine x] (fst (agen_one u l (IDefine x))) l c c)
+          by (apply cshape_plain; [lia | reflexivity | reflexivity | apply used_plain]).
+        assert (Hctx1 : ctx_ok l F E1 c c1).
+        { constructor; [exact Hbc | eapply lut_ok_sub; [exact Hlut | lia | lia] | eapply F_out_sub; [exact HFo | lia | lia] |].
+          intros t0 Ht0. unfold E1. rewrite sget_sset_var by lia. apply HEf. lia. }
+        assert (Hse : sext pv fl sc e e').
+        { intros w Hw. unfold e'. cbn [SyltSem.lookup]. destruct (N.eqb_spec x w) as [->|]; [|reflexivity].
+          destruct Hw as [Hw|[Hw|Hw]]; [contradiction | congruence | contradiction]. }
+        assert (Hfn0 : incl fl fl0) by (apply incl_tl, incl_refl).
+        assert (Hsa : forall l0, cshape u l0 [IAssign x rv] (fst (agen_one u l0 (IAssign x rv))) l0 c1 c1)
+          by (intros l0; apply (cshape_plain u l0 (IAssign x rv) c1 c1); [lia | reflexivity | reflexivity | apply used_plain]).
+        assert (HLr : forall l0, exists b2 l2, cshape u l0 (concat ys) b2 l2 c1 c')
+          by (intros l0; eapply (L_stmts_all pv sv bound u fl' (S (S g2))); eassumption).
+        destruct (SyltSem.exec (S n2) e (SDefinition nm x kd t v sp) st) as [rr stx] eqn:He0.
+        cbn [SyltSem.exec] in He0. unfold SyltSem.bind at 1 in He0. rewrite new_cell_eq in He0. fold c0 in He0. fold e' in He0.
+        unfold SyltSem.bind at 1 in He0.
+        destruct (SyltSem.eval n2 e' v (s_alloc st (SyltSem.SV Values.VLuaNil))) as [[y_|o|cc] st2] eqn:He1.
+        2,3: (inversion He0; subst rr stx; inversion Hev; subst r st';
+              destruct (HX fl0 W0 g2 k v K ctx c code_v rv c1 e' _ _ _ sc l E1 stL1 F He1 Hm Hfe Huv Hcrv Hctx1 Hrel1 Hint)
+                as (b1 & l1 & Hs1 & _ & _ & Hp1);
+              destruct (HLr l1) as (b2 & l2 & Hs2);
+              eexists _, _; (split; [eapply cshape_app; [eapply cshape_cons; [exact Hsd|]; eapply cshape_app; [exact Hs1 | apply Hsa] | exact Hs2]|]);
+              cbn [blk_post];
+              apply (exit_app pv sv bound u fl W ctx sc e c c1 c'); [|lia];
+              change (fst (agen_one u l (IDefine x)) ++ b1 ++ fst (agen_one u l1 (IAssign x rv)))
+                with (fst (agen_one u l (IDefine x)) ++ (b1 ++ fst (agen_one u l1 (IAssign x rv))));
+              eapply (exit_pre_w pv sv bound u fl W fl0 W0 ctx sc sc e e' st c c c c1 c c1 E stL _ E1 stL1);
+                [exact Hxd | exact Hfd0 | exact Hkd | exact Hrel | apply wsub_addR | exact Hfn0 | exact Hse | apply incl_refl
+                 | eapply exit_app; [exact Hp1 | apply N.le_refl] | lia | lia | lia | lia]).
+        destruct (HX fl0 W0 g2 k v K ctx c code_v rv c1 e' _ _ st2 sc l E1 stL1 F He1 Hm Hfe Huv Hcrv Hctx1 Hrel1 I)
+          as (b1 & l1 & Hs1 & _ & _ & W1 & E2 & stL2 & F2 & Hw1 & Hok2 & Hrel2 & Hd2).
+        destruct K as [|ka kr]; [contradiction|]. cbn [adenotes] in Hd2. destruct Hd2 as (d & Hd & Hdk & -> & Hld).
+        pose proof Hok2 as (Hx2 & Hf2 & _ & HFn2 & Hk2).
+        assert (Hctx2 : ctx_ok l1 F2 E2 c1 c').
+        { eapply (ctx_after_blk bound u l F E1 stL1 c c1 c'); [|exact Hs1 | exact Hf2 | exact HFn2].
+          constructor; [exact Hbc | exact Hlut | exact HFo |]. intros t0 Ht0. unfold E1. rewrite sget_sset_var by lia. apply HEf. exact Ht0. }
+        assert (HxE2 : sget (fmt_var x) E2 = Some p0).
+        { rewrite (Hk2 x); [unfold E1; apply sget_sset_same|]. right. left. reflexivity. }
+        unfold SyltSem.bind at 1 in He0. rewrite write_cell_eq in He0. cbn in He0. inversion He0; subst rr stx. clear He0.
+        (* V<x> = the closure *)
+        assert (Hlcv : lut_ok bound l1 c1 c1) by (eapply lut_ok_sub; [apply (cx_lut _ _ _ _ _ _ Hctx2) | lia | lia]).
+        destruct (step_cassign pv sv bound u fl0 W1 sc e' st2 E2 stL2 l1 c1 c1 x rv p0 F2 (fd_fid d) Hrel2 Hlcv Hvb Hcx HxE2 Hld)
+          as (st3 & Hx3 & Hxa & Hfa).
+        pose proof (rel_cdef pv sv bound u fl W sc e st E stL x W1 st2 E2 st3 d Hrel Hw1 Hd
+                      (rel_cells_ext pv sv bound u _ _ _ _ _ _ _ _ Hrel2 Hx3) HxE2 Hfr) as Hrel3.
+        fold c0 p0 e' in Hrel3. rewrite Hdk in Hrel3. fold fl' in Hrel3.
+        set (W2 := world_addF (world_addD W d) c0 p0 d) in *.
+        set (stL3 := set_cell st3 p0 (VFun (fd_fid d))) in *.
+        assert (Hww2 : wsub W W2) by (eapply wsub_trans; [apply wsub_addD | apply wsub_addF]).
+        (* the prefix as one step *)
+        set (bpre := fst (agen_one u l (IDefine x)) ++ (b1 ++ fst (agen_one u l1 (IAssign x rv)))).
+        assert (Hxpre : ExecS E bpre stL (ROk (E2, SigNormal) stL3)).
+        { unfold bpre. eapply ExecS_app; [exact Hxd|]. eapply ExecS_app; [exact Hx2 | exact Hxa]. }
+        assert (Hfpre : wframe bound c c1 E stL E2 stL3).
+        { eapply wframe_trans; [eapply wframe_widen; [exact Hfd0 | lia | lia]|].
+          eapply wframe_trans; [exact Hf2 | eapply wframe_widen; [exact Hfa | lia | lia]]. }
+        assert (Hkpre : keep fl sc E E2).
+        { intros w Hw. rewrite (Hk2 w); [apply Hkd; exact Hw|]. destruct Hw as [Hw|Hw]; [left; exact Hw | right; right; exact Hw]. }
+        assert (Hfn1 : incl fl fl') by (apply incl_tl, incl_refl).
+        destruct (HB fl' W2 (S (S g2)) k ss ctx c1 ys c' e' _ r st' sc sc' flr l1 E2 stL3 F2 Hev Hys Hrest Huys Hctx2 Hrel3 Hint)
+          as (b2 & l2 & Hs2 & Hpost).
+        eexists _, _. split; [eapply cshape_app; [eapply cshape_cons; [exact Hsd|]; eapply cshape_app; [exact Hs1 | apply Hsa] | exact Hs2]|].
+        change ((fst (agen_one u l (IDefine x)) ++ b1 ++ fst (agen_one u l1 (IAssign x rv))) ++ b2) with (bpre ++ b2).
+        destruct r as [e2|o|a].
+        - cbn [blk_post] in *. destruct Hpost as (W3 & E3 & stL4 & F3 & Hx4 & Hf4 & Hr4 & Hw4 & HFn4 & Hk4 & Hs4 & Hi4).
+          exists W3, E3, stL4, F3.
+          splits; [eapply ExecS_app; eassumption
+                  | eapply wframe_trans; [eapply wframe_widen; [exact Hfpre | lia | lia] | eapply wframe_widen; [exact Hf4 | lia | lia]]
+                  | exact Hr4 | eapply wsub_trans; [exact Hww2 | exact Hw4]
+                  | eapply F_new_trans; [exact HFn2 | exact HFn4 | lia | lia]
+                  | | | exact Hi4].
+          + intros w Hw. rewrite (Hk4 w); [apply Hkpre; exact Hw|]. destruct Hw as [Hw|Hw]; [left; exact Hw | right; right; exact Hw].
+          + intros w Hw. rewrite Hs4; [apply Hse; exact Hw|]. destruct Hw as [Hw|[Hw|Hw]]; [left; exact Hw | right; left; exact Hw | right; right; right; exact Hw].
+        - cbn [blk_post] in *.
+          eapply (exit_pre_w pv sv bound u fl W fl' W2 ctx sc sc e e' st c c1 c1 c' c c' E stL bpre E2 stL3);
+            [exact Hxpre | exact Hfpre | exact Hkpre | exact Hrel | exact Hww2 | exact Hfn1 | exact Hse | apply incl_refl | exact Hpost | lia | lia | lia | lia].
+        - cbn [blk_post] in *.
+          eapply (exit_pre_w pv sv bound u fl W fl' W2 ctx sc sc e e' st c c1 c1 c' c c' E stL bpre E2 stL3);
+            [exact Hxpre | exact Hfpre | exact Hkpre | exact Hrel | exact Hww2 | exact Hfn1 | exact Hse | apply incl_refl | exact Hpost | lia | lia | lia | lia]. }
       destruct (L_stmt_all pv sv bound u fl g k s ctx c y c1 sc sc1 l Hy Hs) as (_ & _ & (_ & Hcc1 & _)).
       assert (HLr : forall l0, exists b2 l2, cshape u l0 (concat ys) b2 l2 c1 c')
         by (intros l0; eapply (L_stmts_all pv sv bound u fl g); eassumption).
@@ -887,7 +1197,7 @@ Proof.
   pose proof HW as [H1 H2 H3 H4 H5 H6 H7 Hff H8 H9 H10 Hall Hlock H11 H13 H14].
   destruct (H10 d Hd) as (Hst & Hclo & HcloL & Halloc & Hfid & Hci & Hpc & Hsc & Hfl & Htm).
   apply rel_of0.
-  { intros f ar Hin. destruct (Hfl f ar Hin) as (c & p & d' & A & B & C & D). exists c, p, d'.
+  { intros f ar Hin HK. destruct (Hfl f ar Hin HK) as (c & p & d' & A & B & C & D). exists c, p, d'.
     cbn [callee_world w_F w_D]. destruct (H6 c p d' C) as (_ & _ & _ & Hd'). auto 10. }
   constructor.
   - apply (fs_scb _ _ _ _ _ Hst).
@@ -904,7 +1214,7 @@ Proof.
     + exact H2.
     + exact H3.
     + exact H4.
-    + intros c p lv Hr [Hq|(t & Hbt & Hq & _)]; [exact (H5 c p lv Hr Hq)|]. destruct (H14 t p Hbt Hq) as [Hn _]. exact (Hn c Hr).
+    + intros c p b lv Hr [Hq|(t & Hbt & Hq & _)]; [exact (H5 c p b lv Hr Hq)|]. destruct (H14 t p Hbt Hq) as [Hn _]. exact (Hn c b Hr).
     + exact H6.
     + intros c p d0 lv Hf [Hq|(t & Hbt & Hq & _)]; [exact (H7 c p d0 lv Hf Hq)|]. destruct (H14 t p Hbt Hq) as [_ Hn]. exact (Hn c d0 Hf).
     + exact Hff.
@@ -938,7 +1248,7 @@ Proof.
   set (W3 := mkWorld (w_R W2) (w_F W2) (w_D W2) (w_P W1) (w_pc W2)).
   exists W3. split.
   { destruct Hs1 as (A & B & C & D & F). unfold wsub, W3. cbn.
-    split; [intros c p Hr; apply HsR, A, Hr|]. split; [intros c p d Hf; apply HsF, B, Hf|].
+    split; [intros c p b Hr; apply HsR, A, Hr|]. split; [intros c p d Hf; apply HsF, B, Hf|].
     split; [intros d Hd; apply HsD, C, Hd|]. split; [exact D | congruence]. }
   split; [exact HD2|]. split.
   - constructor.
@@ -956,7 +1266,7 @@ Proof.
       * exact H2.
       * exact H3.
       * exact H4.
-      * intros c p lv Hr Hq. apply (H5 c p lv Hr). apply HsP. left. exact Hq.
+      * intros c p b lv Hr Hq. apply (H5 c p b lv Hr). apply HsP. left. exact Hq.
       * exact H6.
       * intros c p d lv Hf Hq. apply (H7 c p d lv Hf). apply HsP. left. exact Hq.
       * exact Hff.
@@ -968,7 +1278,7 @@ Proof.
       * intros v Hv. destruct (wi_sc _ _ _ _ _ _ _ _ _ _ _ HW v Hv) as (c & p & A & B & C). exists c, p. auto.
       * apply (wi_scfl _ _ _ _ _ _ _ _ _ _ _ HW).
       * intros t p Hbt Hq. pose proof (Htemp t p Hbt Hq) as Hpr. split.
-        -- intros c Hr. exact (H5 c p _ Hr Hpr).
+        -- intros c b Hr. exact (H5 c p b _ Hr Hpr).
         -- intros c d Hf. exact (H7 c p d _ Hf Hpr).
   - split; [exact Hnc|]. intros t p Hbt Hq. apply (H8 p _ (Htemp t p Hbt Hq)).
 Qed.
@@ -985,7 +1295,7 @@ Proof.
     exists (world_addD W d). split; [apply wsub_addD|]. split.
     + cbn [arel]. exists d. split; [right; reflexivity | auto].
     + split.
-      * intros f K Hin. destruct (Hfs f K Hin) as (c & p & d' & A & B & C & D & F). exists c, p, d'.
+      * intros f K Hin HK. destruct (Hfs f K Hin HK) as (c & p & d' & A & B & C & D & F). exists c, p, d'.
         split; [exact A | split; [exact B | split; [exact C | split; [exact D | left; exact F]]]].
       * exists W3. split; [|exact Hrel]. destruct Hs as (A & B & C & D & F). unfold wsub, world_addD. cbn.
         split; [exact A|]. split; [exact B|]. split; [intros d0 [Hd0| ->]; [apply C; exact Hd0 | apply HD; exact Hd]|]. split; assumption.
@@ -1096,18 +1406,24 @@ Qed.
 (* by induction on the fuel of the reference interpreter, for every set of callable functions and every world:
    a call runs the body of the callee, in the world of the callee, with less fuel; a statement list runs in worlds
    that grow with the local functions it defines; a function-valued expression may add a closure to the world *)
-Theorem P_all n : forall fl W, P_all_at n fl W.
+Theorem P_all_le n : forall m, (m <= n)%nat -> forall fl W, P_all_at m fl W.
 Proof.
-  induction n as [|n IH]; intros fl W.
-  - split; [apply P_eval_zero|]. split; [apply P_exec_zero|]. split; [apply P_blk_zero|].
+  induction n as [|n IHle]; intros m Hm.
+  - assert (m = O) by lia. subst m. intros fl W.
+    split; [apply P_eval_zero|]. split; [apply P_exec_zero|]. split; [apply P_blk_zero|].
     split; [apply P_bv_zero|]. split; [apply P_fb_zero|]. split; [apply P_apply_zero | apply P_farg_zero].
-  - destruct (IH fl W) as (IHe & IHs & IHss & IHb & IHf & IHa & IHx).
+  - destruct (Nat.eq_dec m (S n)) as [->|Hne]; [|apply IHle; lia].
+    pose proof (IHle n (Nat.le_refl n)) as IH. intros fl W.
+    destruct (IH fl W) as (IHe & IHs & IHss & IHb & IHf & IHa & IHx).
     split; [apply P_eval_succ; [assumption | assumption | apply P_ecall_succ; intros W'; apply (IH fl W')]|]. split; [apply P_exec_succ; assumption|].
-    split; [apply P_blk_succ; intros fl' W'; apply (IH fl' W')|].
+    split; [apply P_blk_succ; [intros fl' W'; apply (IH fl' W') | intros fl' W'; apply (IH fl' W') | intros fl' W'; apply (IHle (pred n)); lia]|].
     split; [apply P_bv_succ; [intros fl' W'; apply (IH fl' W') | assumption]|].
     split; [apply P_fb_succ; intros fl' W'; apply (IH fl' W')|].
     split; [apply P_apply_succ; intros fl' W'; apply (IH fl' W')|].
     apply P_farg_succ; intros W'; apply (IH fl W').
 Qed.
+
+Theorem P_all n : forall fl W, P_all_at n fl W.
+Proof. apply (P_all_le n n). apply Nat.le_refl. Qed.
 
 End All.
